@@ -34,6 +34,21 @@ def _facts_from_cond(e, polarity):
             op = {"<": ">=", ">": "<=", "<=": ">", ">=": "<", "==": "!=", "!=": "=="}[op]
         ka, kb = C.ref_key(a), C.ref_key(b)
         ca, cb = C.const_int(a), C.const_int(b)
+        # key >= constant
+        if ka is not None and cb is not None and cb >= 0:
+            if op == ">":
+                out.append(("gec", ka, cb + 1))
+            elif op == ">=":
+                out.append(("gec", ka, cb))
+            elif op == "==":
+                out.append(("gec", ka, cb))
+        if kb is not None and ca is not None and ca >= 0:
+            if op == "<":
+                out.append(("gec", kb, ca + 1))
+            elif op == "<=":
+                out.append(("gec", kb, ca))
+            elif op == "==":
+                out.append(("gec", kb, ca))
         if op == ">" and ka is not None and cb is not None and cb >= 0:
             out.append(("ge1", ka))
         if op == ">=" and ka is not None and cb is not None and cb >= 1:
@@ -78,16 +93,32 @@ def _writes(ast):
 
 
 def unsigned_subtractions(ast):
-    """(node, minuend expr, subtrahend expr or literal 1) for unsigned -, -=, --."""
+    """(node, minuend expr, subtrahend expr or literal 1, local facts) for unsigned -, -=, --; the local facts are those
+    established by the conditions of the conditional expressions the subtraction sits in."""
     out = []
-    for x in C.walk(ast):
+
+    def rec(x, facts):
+        if x is None:
+            return
         k = x.get("k")
+        if k == "Cond":
+            rec(x["c"], facts)
+            rec(x["a"], facts | frozenset(_facts_from_cond(x["c"], True)))
+            rec(x["b"], facts | frozenset(_facts_from_cond(x["c"], False)))
+            return
+        if k == "Bin" and x["op"] in ("&&", "||"):
+            rec(x["a"], facts)
+            rec(x["b"], facts | frozenset(_facts_from_cond(x["a"], x["op"] == "&&")))
+            return
+        for c in C.children_of(x):
+            rec(c, facts)
         if k == "Bin" and x["op"] == "-" and _is_unsigned(x.get("t")):
-            out.append((x, x["a"], x["b"]))
+            out.append((x, x["a"], x["b"], facts))
         elif k == "Bin" and x["op"] == "-=" and _is_unsigned(x.get("t")):
-            out.append((x, x["a"], x["b"]))
+            out.append((x, x["a"], x["b"], facts))
         elif k == "Un" and x["op"] in ("pre--", "post--") and _is_unsigned(x.get("t")):
-            out.append((x, x["x"], None))
+            out.append((x, x["x"], None, facts))
+    rec(ast, frozenset())
     return out
 
 
@@ -134,7 +165,7 @@ def check_U1(chk, fn, g):
                     subs += unsigned_subtractions(d["init"])
         else:
             subs = unsigned_subtractions(body)
-        for x, a, b in subs:
+        for x, a, b, local in subs:
             if node.id not in ex.at:
                 continue  # unreachable
             n += 1
@@ -143,14 +174,17 @@ def check_U1(chk, fn, g):
             kb = None if b is None else C.ref_key(b)
             inst = "%s: %s" % (fn["qname"], C.pretty(x))
             bad = None
-            for st in ex.at[node.id]:
+            for st0 in ex.at[node.id]:
+                st = set(st0) | set(local)
                 okk = False
                 if ka is not None and cb is not None and cb <= 1 and (cb == 0 or ("ge1", ka) in st):
+                    okk = True
+                if ka is not None and cb is not None and any(f[0] == "gec" and f[1] == ka and f[2] >= cb for f in st):
                     okk = True
                 if ka is not None and kb is not None and ("ge", ka, kb) in st:
                     okk = True
                 if not okk:
-                    bad = st
+                    bad = st0
                     break
             chk.require(bad is None, "U1", inst, where(x, fn),
                         "unsigned subtraction %s is not dominated by a guard establishing "
@@ -242,6 +276,27 @@ def run(chk, prog):
     dump_renames = [(n, x) for n, x in renames
                     if (_root_local(x["a"][0]) or {}).get("id") == dump_local["id"]]
     shift_renames = [(n, x) for n, x in renames if (n, x) not in dump_renames]
+    # a rename whose source is the dump name on some condition only (`i > 1 ? backup(i - 2) : filename`): whether the dump is
+    # renamed before the truncating open then depends on the values a loop counter takes; U2's path rule cannot decide that
+    # (it would blame a correct folded loop as well), U6 below does
+    conditional_dump_rename = False
+    for n_, x_ in shift_renames:
+        src = _root_local(x_["a"][0])
+        if src is None:
+            continue
+        for node_ in g.nodes:
+            if node_.kind == "decl":
+                for d_ in node_.ast["d"]:
+                    if d_["id"] == src["id"] and d_.get("init") is not None:
+                        for y_ in C.walk(d_["init"]):
+                            if y_.get("k") == "Cond" and any(
+                                    z_.get("k") == "Ref" and z_.get("id") == dump_local["id"]
+                                    for arm in (y_["a"], y_["b"]) for z_ in C.walk(arm)):
+                                conditional_dump_rename = True
+    # ---- U6: rename-before-truncate under the class invariant of the counters --------------------
+    from . import c14_abs
+    n_u6 = c14_abs.rule_U6(chk, u, fn, g, dump_local, _root_local, renames, open_node, open_x)
+    chk.floor("U6", n_u6, 4)
 
     # ---- U4: every rename result is compared and failure aborts -------------
     for n, x in renames:
@@ -307,7 +362,7 @@ def run(chk, prog):
 
     n_u2 = 0
     ex = None
-    for mx0 in (0, 1, 2):
+    for mx0 in ((0, 1, 2) if not conditional_dump_rename else ()):
         for rs0 in (0, 1, 2):
             ex = C.explore(g, (mx0, rs0, 0, False, True), transfer)
             for st in ex.at.get(open_node.id, ()):
@@ -324,10 +379,13 @@ def run(chk, prog):
             if not all(st[3] for st in ex.at.get(g.exit.id, ())):
                 chk.fail("U2", "every return follows the open", where(fn), "a path reaches the exit without opening the restart "
                          "file", function=fn["qname"])
-    if not found["max"] or not found["rst"]:
+    if conditional_dump_rename:
+        chk.note("U2 skipped: the rename of the dump is folded into a loop (conditional source); decided by U6")
+    elif not found["max"] or not found["rst"]:
         raise AnalysisBroken("the guards on _maximum_number_of_backups/_number_of_restarts were not "
                              "found in get_restart_writer")
-    chk.floor("U2", n_u2, 9)
+    if not conditional_dump_rename:
+        chk.floor("U2", n_u2, 9)
     rets = [n for n in g.nodes if n.kind == "return"]
     chk.require(len(rets) >= 1, "U2", "every return follows the open", where(fn),
                 "no return statement", function=fn["qname"])
